@@ -165,14 +165,17 @@ func (v Vox) ChangeZoom(h, vz int64) []Vox {
 
 // ChangeZoomCount predicts the number of voxels ChangeZoom returns.
 func (v Vox) ChangeZoomCount(h, vz int64) int64 {
-	n := int64(1)
+	sh := int64(0)
 	if h > v.H {
-		n <<= uint(2 * (h - v.H))
+		sh += 2 * (h - v.H)
 	}
 	if vz > v.V {
-		n <<= uint(vz - v.V)
+		sh += vz - v.V
 	}
-	return n
+	if sh > 60 {
+		return 1 << 60 // saturate: far beyond every budget
+	}
+	return int64(1) << uint(sh)
 }
 
 // Set is a set of voxels keyed by extended ID.
